@@ -121,20 +121,24 @@ def data_calls(t):
 
 
 def check_sink(ctx, rule, fn, sink, term, sources, calls, methods, site):
-    """no cross-component flow, transformers within the allowed set."""
+    """no cross-component flow, transformers within the allowed set.  When the chain carries a call or a
+    method the rule does not know (a refactoring introduced a helper, another string idiom), the whole
+    function is interpreted on the table of class representatives instead (tables.reference_cells)."""
+    from . import tables as TB
+    cells = TB.reference_cells(ctx.repo, fn, fn) if TB.rows(fn, fn) else None
     got = parse_attrs(term)
     bad = sorted(got - set(sources))
     ctx.ob(rule, "%s/%s/sources" % (fn, sink), not bad,
            "%s: the %s of the result takes data from the input's %s (allowed: %s)" % (fn, sink, ", ".join(bad), ", ".join(sorted(sources))),
-           site, sample="%s <- %s" % (sink, sorted(got)))
+           site, sample="%s <- %s" % (sink, sorted(got)), cells=cells)
     c, m = data_calls(term)
     badc = sorted(x for x in c if x not in calls and x not in NEUTRAL_CALLS)
     ctx.ob(rule, "%s/%s/transformers" % (fn, sink), not badc,
            "%s: unexpected transformer(s) %s on the %s chain" % (fn, ", ".join(badc), sink), site,
-           sample="%s passes through %s" % (sink, sorted(x.rpartition('.')[2] for x in c)))
+           sample="%s passes through %s" % (sink, sorted(x.rpartition('.')[2] for x in c)), cells=cells)
     badm = sorted(x for x in m if x not in methods)
     ctx.ob(rule, "%s/%s/methods" % (fn, sink), not badm,
-           "%s: unexpected string method(s) %s applied on the %s chain" % (fn, ", ".join(badm), sink), site)
+           "%s: unexpected string method(s) %s applied on the %s chain" % (fn, ", ".join(badm), sink), site, cells=cells)
     # the UNQUOTE role's component equals the sink's component
     wrong = sorted(x for x in c if x in ALL_UNQUOTE and x not in calls)
     for w in wrong:
